@@ -114,22 +114,42 @@ def showTracked : Option (Tracked String) → String
   | none => "none"
   | some t => s!"h={t.height} c={t.next}"
 
-def step (st : Option (Tracked String)) (toks : List String) : Option (Tracked String) × String :=
+structure St where
+  tracked : Option (Tracked String) := none
+  svs : List Nat := []
+
+def descOf (m : Nat) (ks : List Nat) : String := s!"{m}:{".".intercalate (ks.map toString)}"
+
+/-- `sc.CreateMultiSigContract(m, keys)`: refuses unless 1 ≤ m ≤ n ≤ 1024, sorts the keys (pool indices are
+numbered in the library's key order), script hash = descriptor. -/
+def contractOf (m : Nat) (ks : List Nat) : Option String :=
+  if 1 ≤ m ∧ m ≤ ks.length ∧ ks.length ≤ 1024 then some (descOf m (ks.mergeSort (· ≤ ·))) else none
+
+def step (thr : Int → Int) (st : St) (toks : List String) : St × String :=
   match toks with
   | ["ngen", i, cons] =>
     match i.toNat?, parseDesc cons with
-    | some i, some _ => let (s, o) := syncGenesis st i cons; (s, showOut o ++ " " ++ showTracked s)
+    | some i, some _ => let (s, o) := syncGenesis st.tracked i cons; ({ st with tracked := s }, showOut o ++ " " ++ showTracked s)
     | _, _ => (st, "bad-op")
   | "nhdr" :: rest =>
     match (rest.filter (· != "|")).mapM parseHdr with
-    | some hs => let (s, o) := syncBlockHeader st hs; (s, showOut o ++ " " ++ showTracked s)
+    | some hs => let (s, o) := syncBlockHeader st.tracked hs; ({ st with tracked := s }, showOut o ++ " " ++ showTracked s)
     | none => (st, "bad-op")
   | ["nmsg", _i, w, sigs] =>
-    if w == "-" then (st, showOut (verifyMsgNeo2 st none false))
+    if w == "-" then (st, showOut (verifyMsgNeo2 st.tracked none false))
     else match wokOf w sigs with
-      | some wok => (st, showOut (verifyMsgNeo2 st (some w) wok))
+      | some wok => (st, showOut (verifyMsgNeo2 st.tracked (some w) wok))
       | none => (st, "bad-op")
-  | ["nstate"] => (st, showTracked st)
+  | ["nsv", ks] =>
+    match OntDrv.parseIdx ks with
+    | some ks => ({ st with svs := ks }, "ok")
+    | none => (st, "bad-op")
+  | ["nmsg3", _i, w, sigs] =>
+    if w == "-" then (st, showOut (verifyMsgNeo3 thr contractOf st.svs none false))
+    else match wokOf w sigs with
+      | some wok => (st, showOut (verifyMsgNeo3 thr contractOf st.svs (some w) wok))
+      | none => (st, "bad-op")
+  | ["nstate"] => (st, showTracked st.tracked)
   | _ => (st, "bad-op")
 
 end NeoDrv
@@ -138,8 +158,10 @@ def main (args : List String) : IO Unit :=
   match args with
   | ["ontmsg"] => Proto.run Poly.Model.LCOnt.St.empty OntDrv.step
   | ["onthdr"] => Proto.run Poly.Model.LCOnt.St.empty OntDrv.step
-  | ["neomsg"] => Proto.run none NeoDrv.step
-  | ["neohdr"] => Proto.run none NeoDrv.step
+  | ["neomsg"] | ["neohdr"] | ["neo3msg"] | ["neo3hdr"] =>
+    Proto.run ({} : NeoDrv.St) (NeoDrv.step Poly.Generated.Thresholds.neo3_verifyWitness_m0)
+  | ["neo3lmsg"] | ["neo3lhdr"] =>
+    Proto.run ({} : NeoDrv.St) (NeoDrv.step Poly.Generated.Thresholds.neo3legacy_verifyWitness_m0)
   | [fam] =>
     if fam.startsWith "tm" then Poly.Model.LCTmDrv.main fam
     else if fam.startsWith "posa" || fam.startsWith "bor" then Poly.Model.LCPosaDrv.main fam
